@@ -22,7 +22,7 @@ MVal generate(const std::string&, uint64_t seed, uint64_t idx) {
     plan.set("engine", MVal::str("patchsim")); plan.set("seed", MVal::uinteger(seed)); plan.set("idx", MVal::uinteger(idx));
     plan.set("ordered", MVal::boolean((idx & 1) != 0));
     plan.set("use_ec", MVal::boolean(r.coin()));
-    GenOpts go; go.max_depth = 1 + (int)r.below(3); go.max_width = 1 + (int)r.below(5); go.hostile_keys = r.chance(1, 2); go.doubles = false; go.root_container = !r.chance(1, 10);
+    GenOpts go; go.max_depth = 1 + (int)r.below(3); go.max_width = 1 + (int)r.below(5); go.hostile_keys = r.chance(1, 2); go.doubles = true; go.root_container = !r.chance(1, 10);
     MVal doc = gen_value(r, go);
     plan.set("doc", doc);
     if (idx % 5 == 4) {
